@@ -1185,12 +1185,13 @@ pub fn gen_doc(
     if heavy {
         // many hash-ordered warnings plus many pairs of diagnostics with the same start position
         // sizes around the usual thresholds of small-vector / cap / batching code: 16, 32, 64
-        let ni = match rng.below(20) {
+        let ni = match rng.below(22) {
             0..=12 => rng.range(6, 16),
             13..=15 => rng.range(30, 40),
             16 | 17 => rng.range(62, 72),
             18 => rng.range(126, 136),
-            _ => rng.range(254, 264),
+            19 => rng.range(254, 264),
+            _ => rng.range(97, 104), // decimal thresholds
         };
         for i in 0..ni {
             imports.push(if rng.pct(70) {
